@@ -8,14 +8,18 @@ static mcx::Report R;
 
 static std::vector<Cfg> configs(bool T) {
     std::vector<Cfg> v;
-    std::vector<unsigned> ns = T ? std::vector<unsigned>{4, 6, 8} : std::vector<unsigned>{4};
-    std::vector<unsigned> Ns = T ? std::vector<unsigned>{16, 24, 30, 32, 33, 37, 64, 74} : std::vector<unsigned>{16, 24, 33};
+    std::vector<unsigned> ns = T ? std::vector<unsigned>{4, 6, 8, 12, 16} : std::vector<unsigned>{4};
+    std::vector<unsigned> Ns = T ? std::vector<unsigned>{16, 24, 30, 32, 33, 37, 48, 64, 74, 96, 127, 128, 255, 256} : std::vector<unsigned>{16, 24, 33};
     std::vector<std::vector<uint32_t>> bsets = {{0}, {1}, {1, 0}, {0, 1}, {2, 0}};
-    if (T) { bsets.push_back({2, 1, 0}); bsets.push_back({3, 0, 1}); bsets.push_back({2}); }
-    for (unsigned n : ns) for (unsigned N : Ns) for (auto& bs : bsets) for (int sp = 0; sp < 3; sp++) {
+    if (T) { bsets.push_back({2, 1, 0}); bsets.push_back({3, 0, 1}); bsets.push_back({2}); bsets.push_back({3, 2, 1, 0}); bsets.push_back({4, 0}); bsets.push_back({0, 2, 5}); }
+    for (unsigned n : ns) for (unsigned N : Ns) for (auto& bs : bsets) for (int sp = 0; sp < 4; sp++) {
         unsigned spacing = sp == 0 ? n : sp == 1 ? n + 3 : 2 * n;
         unsigned mx = 0; for (auto b : bs) mx = std::max(mx, b);
         if (mx == 0 && sp > 0) continue;                 // spacing irrelevant for bucket 0 only
+        if (sp == 3) {                                   // exact fit: the last bucket ends at the very end of the padded buffer
+            if ((N - n) % mx != 0 || (N - n) / mx < n) continue;
+            spacing = (N - n) / mx;
+        }
         if (mx * spacing + n > N) continue;              // train must fit the padded length
         v.push_back(Cfg{n, (unsigned)bs.size(), N, spacing, bs});
     }
